@@ -301,3 +301,40 @@ CHECKS = {
         "design_ref": "DESIGN.md §5 C16",
     },
 }
+
+# ---------------------------------------------------------------- round 11: transaction layer and node environment
+TX_RULE = (" Transaction layer (DESIGN 2.2a): per case every / every 2nd / every 3rd / no message of the history is delivered as a signed transaction through "
+           "baseapp's real DeliverTx on the case's branch of the state (ante handler, the transaction's own gas meter; SIGN_MODE_DIRECT or amino JSON with a "
+           "client-built sign document; alone or behind another message of the same signer), preceded - drawn per message - by a simulation, CheckTx + ReCheckTx, a "
+           "delivery with 1..40000 gas less than the simulated need (accepted => it is the execution and meets the oracles) and a delivery in front of a failing "
+           "message; every message in its wire form; every second shard runs on a node started with non-default node-local options.")
+TX_NOTE = " RunMsg (world.go) is one of two execution paths since round 11; the other is baseapp's own DeliverTx (txbranch.go, txmode.go)."
+for _pid in ("C01", "C05", "C06", "C07", "C08", "C09", "C13", "C17", "C18", "C20"):
+    CHECKS[_pid]["rule"] += TX_RULE
+    CHECKS[_pid]["level_note"] += TX_NOTE
+    CHECKS[_pid]["technique"] += "; messages also delivered as signed transactions through baseapp's DeliverTx with discarded runs before them (transaction layer)"
+    CHECKS[_pid].setdefault("min_class_fraction", {})["tx_layer:message_delivered_as_signed_transaction"] = {"C18": 0.08, "C13": 0.2}.get(_pid, 0.25)
+for _pid in ("C01", "C05"):
+    CHECKS[_pid]["rule"] += " Strict: a transaction reported as rejected must leave every store unchanged, one reported as accepted must not have used more gas than its limit."
+for _pid in ("C05", "C06", "C07", "C08", "C18"):
+    CHECKS[_pid]["rule"] += " Transaction windows: 2-4 messages at one instant are executed one by one and then redelivered as ONE transaction signed by all their signers, which must leave a byte-identical state (or nothing, if one of them failed)."
+DISTR_RULE = (" Since round 11: governance messages are handled by the message server of the keeper that runs the case's blocks (all-or-nothing like x/gov); one case in two "
+              "contains proposals that re-plan the configuration and are rolled back by a failing second message; one case in three restarts the node (new keeper over the same store) after drawn blocks.")
+for _pid in ("C03", "C04", "C14", "C18"):
+    CHECKS[_pid]["rule"] += DISTR_RULE
+CHECKS["C10"]["rule"] = ("TestC10Restart: generated genesis and 5-14 blocks of signed transactions on the ABCI chain (x/gov deciding and executing proposals in EndBlock, commits) with the node process "
+                         "restarting after a block one time in four and after a rolled-back proposal; one history in two opens with a proposal that cuts every period of the stored schedule to ten seconds, "
+                         "appends a period and is rolled back by its failing second message; any panic in begin / end block is a violation. TestC10: ") + CHECKS["C10"]["rule"]
+CHECKS["C10"]["level_note"] += " TestC10Restart covers state that lives only in an application instance's memory (a restarted instance must be able to go on from what was committed)."
+CHECKS["C11"]["rule"] += (" Since round 11 replica F's node-local options cover app.toml and start flags (telemetry, inter-block cache, IAVL cache size, pruning, minimum gas prices, tracing, store tracing, "
+                          "event indexing, halt height); transactions carry one or two generated messages, fees, gas limits from 50000, SIGN_MODE_DIRECT or amino JSON.")
+CHECKS["C12"]["rule"] += " Since round 11 transactions carry one or two generated messages, fees (distributed by the fee distribution afterwards), tight gas limits, SIGN_MODE_DIRECT or amino JSON."
+CHECKS["C13"]["rule"] += " One governance message in four is first executed inside a proposal that is rolled back: the parameters must read as before."
+CHECKS["C19"]["rule"] += " One case in three executes a schedule update with ten times the amounts on a branch that is thrown away (rolled-back proposal) before the observation."
+CHECKS["C15"]["rule"] += " One publish in three is preceded by a publish of another link under the same key that is executed and discarded."
+CHECKS["C09"]["rule"] += " One case in three begins with simulations (baseapp Simulate) of every account-creating message aimed at the address the target account is going to have."
+CHECKS["C16"]["rule"] += " One TestC16Handler case in three executes the upgrade on a freshly started node with drawn node-local options (telemetry, caches, pruning, tracing ...)."
+CHECKS["C02"]["rule"] = CHECKS["C02"]["rule"].replace("(1-6 periods of", "(1-6 periods, one configuration in five 1-14, of")
+CHECKS["C02"]["level_note"] = CHECKS["C02"]["level_note"].replace("<=6 periods", "<=14 periods")
+CHECKS["C01"]["rule"] += " One history in four begins with fee allowances granted to the addresses of collectors that do not exist yet (a base account then occupies the address; the payout fails and stays booked)."
+
